@@ -116,6 +116,24 @@ func queuePops(p *Prog, r *Report, R string, filter func(rel string) bool) {
 			default:
 				r.Check(len(e.readHead) > 0 && len(e.readTail) > 0, R, key, p.InstrPos(e.dropHead[0]), "both ends popped and read", "the queue "+k+" is shortened at both ends but read at one only")
 			}
+			// the element taken is removed on every path: a return between the read and the
+			// shortening hands out an element that stays at the head, so every later pop
+			// hands out the same one again
+			reads, drops := e.readHead, e.dropHead
+			if len(e.dropHead) == 0 {
+				reads, drops = e.readTail, e.dropTail
+			}
+			via := map[ssa.Instruction]bool{}
+			for _, d := range drops {
+				via[d] = true
+			}
+			bad := ""
+			for _, rd := range reads {
+				if ok, where := mustPassInstr(p, rd, via); !ok {
+					bad = "the element read at " + p.InstrPos(rd) + " is still queued at the return at " + where
+				}
+			}
+			r.Check(bad == "", R, key+"/removed-on-every-path", posOfFirst(p, drops), "the element taken is removed on every path", "a pop of "+k+" can return without removing the element it took ("+bad+"): the same element is handed out again by every later pop")
 		}
 	}
 	r.Count("queue_pop_sites", n)
@@ -126,4 +144,43 @@ func posOfFirst(p *Prog, ins []ssa.Instruction) string {
 		return "-"
 	}
 	return p.InstrPos(ins[0])
+}
+
+// mustPassInstr: every path from just after `from` to a normal return passes an instruction
+// of via (or `from` itself is preceded by one in its block: the removal may come first).
+func mustPassInstr(p *Prog, from ssa.Instruction, via map[ssa.Instruction]bool) (bool, string) {
+	b0 := from.Block()
+	i0 := instrIndex(from)
+	for i := 0; i < i0; i++ {
+		if via[b0.Instrs[i]] {
+			return true, ""
+		}
+	}
+	seen := map[*ssa.BasicBlock]bool{}
+	var walk func(b *ssa.BasicBlock, i int) (bool, string)
+	walk = func(b *ssa.BasicBlock, i int) (bool, string) {
+		for ; i < len(b.Instrs); i++ {
+			in := b.Instrs[i]
+			if via[in] {
+				return true, ""
+			}
+			if _, ok := in.(*ssa.Return); ok {
+				return false, p.InstrPos(in)
+			}
+			if _, ok := in.(*ssa.Panic); ok {
+				return true, ""
+			}
+		}
+		for _, s := range b.Succs {
+			if seen[s] {
+				continue
+			}
+			seen[s] = true
+			if ok, where := walk(s, 0); !ok {
+				return false, where
+			}
+		}
+		return true, ""
+	}
+	return walk(b0, i0+1)
 }
